@@ -121,6 +121,54 @@ pub fn long_symbol_program(train: usize) -> Vec<Sym> {
     p
 }
 
+/// Adversarially trained program: every adaptive probability on the path of the final match is driven to the
+/// rail in the opposite direction first (deepest tree nodes first), so that one symbol costs as many input bytes
+/// as training can make it (lc = lp = pb = 0 is assumed so that contexts do not depend on position).
+/// Returns (program, index of the first expensive symbol).
+pub fn adversarial_program(reps: usize) -> (Vec<Sym>, usize) {
+    let mut p: Vec<Sym> = Vec::new();
+    // some initial content so that distances up to ~400 are valid
+    for i in 0..420u32 {
+        p.push(Sym::L((i * 7 + 1) as u8));
+    }
+    let rep = |p: &mut Vec<Sym>, s: Sym| {
+        for _ in 0..reps {
+            p.push(s);
+        }
+    };
+    // B3: align tree of the target (align = 1111): nodes 15, 7, 3, 1 get the opposite bit. slot 15 <=> dist-1 in 192..255
+    for v in [7u32, 3, 1, 0] {
+        rep(&mut p, Sym::M(192 + 16 + v + 1, 18)); // dist-1 = 192 + 16*1 + v  (direct bits 01, align v)
+    }
+    // B2: slot tree (len_state 3) of the target slot 15 = 001111: opposite bit at depth 6,5,4,3,2
+    rep(&mut p, Sym::M(128 + 1, 18)); // slot 14 (001110), align 0000
+    rep(&mut p, Sym::M(64 + 1, 18)); // slot 12 (001100)
+    rep(&mut p, Sym::M(16 + 1, 18)); // slot 8  (001000)
+    rep(&mut p, Sym::M(4 + 1, 18)); // slot 4  (000100)
+    rep(&mut p, Sym::M(256 + 1, 18)); // slot 16 (010000)
+    // B1: length coder: high tree of the target length 273 (symbol 255), deepest node first; matches use slot 16
+    for hs in [254u32, 252, 248, 240, 224, 192, 128, 0] {
+        rep(&mut p, Sym::M(300, hs + 18));
+    }
+    rep(&mut p, Sym::M(300, 10)); // choice2 -> 0
+    rep(&mut p, Sym::M(300, 5)); // choice -> 0
+    // A: is_rep[state 0] -> 1 : rep matches in state 0 (three literals bring the state back to 0)
+    for _ in 0..reps {
+        p.extend([Sym::L(1), Sym::L(2), Sym::L(3), Sym::R(0, 2)]);
+    }
+    // C: is_match[state 0] -> 0
+    rep(&mut p, Sym::L(0x55));
+    let first = p.len();
+    // the expensive symbols
+    p.push(Sym::M(192 + 16 * 3 + 15 + 1, 273)); // slot 15, direct 11, align 1111, length 273
+    p.push(Sym::L(0xAA));
+    p.push(Sym::L(0x55));
+    p.push(Sym::L(0x55));
+    p.push(Sym::M(192 + 16 * 2 + 15 + 1, 273));
+    p.push(Sym::L(0x01));
+    (p, first)
+}
+
 pub fn valid_items(seed: u64, big: bool) -> Vec<Item> {
     let mut v = Vec::new();
     let mk = |name: &str, lc, lp, pb, dict, prog: Vec<Sym>, marker, sized| Item { name: name.to_string(), lc, lp, pb, dict, prog, marker, sized };
